@@ -152,6 +152,15 @@ impl IteratorSpecImpl for JIntoIter {
     }
 }
 
+/// the key texts / the denoted values of a sequence of borrowed entries
+pub open spec fn keys_of(s: Seq<(&String, &Value)>) -> Seq<Seq<char>> { s.map_values(|e: (&String, &Value)| e.0@) }
+pub open spec fn vals_of(s: Seq<(&String, &Value)>) -> Seq<JV> { s.map_values(|e: (&String, &Value)| jv(*e.1)) }
+/// ... of a sequence of owned entries
+pub open spec fn okeys_of(s: Seq<(String, Value)>) -> Seq<Seq<char>> { s.map_values(|e: (String, Value)| e.0@) }
+pub open spec fn ovals_of(s: Seq<(String, Value)>) -> Seq<JV> { s.map_values(|e: (String, Value)| jv(e.1)) }
+/// the texts of a vector of string slices
+pub open spec fn strs(v: Seq<&str>) -> Seq<Seq<char>> { v.map_values(|s: &str| s@) }
+
 /// every key of `m` exactly once, each with the value `m` holds for it (the order — key order for the BTreeMap-backed
 /// serde_json::Map, unspecified for a hash map — is deliberately left open: nothing proved here may depend on it)
 pub open spec fn lists_entries(ks: Seq<Seq<char>>, vs: Seq<JV>, m: Map<Seq<char>, JV>) -> bool {
@@ -205,14 +214,14 @@ impl JsonMap<String, Value> {
     #[verifier::external_body]
     pub fn iter(&self) -> (r: JIter<'_>)
         ensures
-            lists_entries(jiter_seq(r).map_values(|e: (&String, &Value)| e.0@), jiter_seq(r).map_values(|e: (&String, &Value)| jv(*e.1)), self@),
+            lists_entries(keys_of(jiter_seq(r)), vals_of(jiter_seq(r)), self@),
     { unimplemented!() }
 
     /// serde_json: `impl IntoIterator for Map<String, Value>` (Item = (String, Value)): the entries by value
     #[verifier::external_body]
     pub fn into_iter(self) -> (r: JIntoIter)
         ensures
-            lists_entries(jinto_seq(r).map_values(|e: (String, Value)| e.0@), jinto_seq(r).map_values(|e: (String, Value)| jv(e.1)), self@),
+            lists_entries(okeys_of(jinto_seq(r)), ovals_of(jinto_seq(r)), self@),
     { unimplemented!() }
 }
 
@@ -265,7 +274,7 @@ impl HashMap<String, Value> {
     #[verifier::external_body]
     pub fn iter(&self) -> (r: HmIter<'_>)
         ensures
-            lists_entries(hmiter_seq(r).map_values(|e: (&String, &Value)| e.0@), hmiter_seq(r).map_values(|e: (&String, &Value)| jv(*e.1)), self@),
+            lists_entries(keys_of(hmiter_seq(r)), vals_of(hmiter_seq(r)), self@),
     { unimplemented!() }
 }
 
@@ -306,7 +315,17 @@ pub fn vx_join_dot(a: &str, b: &str) -> (r: String)
 #[verifier::external_body]
 pub fn vx_log() { }
 
+/// `s.split('.').collect::<Vec<&str>>()`. std doc of str::split: "An iterator over substrings of this string slice, separated by
+/// characters matched by a pattern": at least one part, no part contains the separator, the parts joined by the separator
+/// give back the string (`is_split` is defined in spec.rs; these three facts determine the parts uniquely: lemma_split_unique)
 #[verifier::external_body]
 pub fn vx_split_dot<'a>(s: &'a str) -> (r: Vec<&'a str>)
-    ensures r@.len() >= 1
+    ensures is_split(strs(r@), s@)
 { s.split('.').collect() }
+
+/// `v.iter().cloned().collect::<HashSet<Value>>()`: std doc of Iterator::cloned ("creates an iterator which clones all of its
+/// elements") and of `impl FromIterator for HashSet`: the set of the elements of `v`
+#[verifier::external_body]
+pub fn vx_cloned_set(v: &Vec<Value>) -> (r: HashSet<Value>)
+    ensures r@ == jvs(v@).to_set()
+{ unimplemented!() }
